@@ -18,6 +18,7 @@ mod c12;
 mod c13;
 mod c14;
 mod c15;
+mod c16;
 mod c17;
 mod c18;
 mod c20;
@@ -46,6 +47,7 @@ macro_rules! dispatch {
             "C13" => $f::<c13::C13>($($arg),*),
             "C14" => $f::<c14::C14>($($arg),*),
             "C15" => $f::<c15::C15>($($arg),*),
+            "C16" => $f::<c16::C16>($($arg),*),
             "C17" => $f::<c17::C17>($($arg),*),
             "C18" => $f::<c18::C18>($($arg),*),
             "C20" => $f::<c20::C20>($($arg),*),
@@ -70,6 +72,7 @@ fn main() {
             let ctx = RunCtx::from_env(tier);
             dispatch!(args[2].as_str(), run_property, &ctx)
         }
+        "probes" => c16::list_probes(),
         "replay" => {
             let path = std::path::PathBuf::from(&args[2]);
             let text = std::fs::read_to_string(&path).unwrap_or_else(|e| {
